@@ -3,6 +3,8 @@
 # Applies patch.diff to /repo, runs the quick check of the property it breaks (and of any extra ids),
 # undoes the change straight afterwards, and records the outcome in meta.json ("checks_run").
 set -u
+# evidence of runs against a modified /repo goes to a scratch directory, never to /verif/evidence
+export VERIF_EVIDENCE_DIR="$(cd "$(dirname "$0")/.." && pwd)/work/evidence-scratch"; mkdir -p "$VERIF_EVIDENCE_DIR"
 ROOT="$(cd "$(dirname "$0")/.." && pwd)"
 D="$ROOT/${1%/}"; shift
 [ -s "$D/patch.diff" ] || { echo "no patch in $D"; exit 2; }
